@@ -210,6 +210,9 @@ def run(ctx):
   for rec in recs[:(len(recs) if thorough or not ctx.property_ok else 150)] + trecs:
     if falsify_rec(ctx, rec, 'views_agree'):
       break
+  for rec in mc.nullspace_cases(ctx.rng, 200 if thorough else 40):     # rank-deficient L, query pairs that differ along directions L collapses
+    if falsify_rec(ctx, rec, 'views_agree'):
+      break
   for rec in mc.scaled_L_cases(ctx.rng, 160 if thorough else 32):      # transformations learned in very large / small units
     if falsify_rec(ctx, rec, 'views_agree'):
       break
